@@ -296,6 +296,8 @@ def fn_void(name, a):
         return c
     if name == "D":                        # y(t) = x(t) - x(t-1), undefined (NaN) at t = 0
         return [NAN] + [a[i] - a[i - 1] for i in range(1, n)]
+    if name == "ABS":                      # y(t) = |x(t)|, infinities included (fix 8378be5)
+        return [abs(v) for v in a]
     if not finite([v for v in a if v == v]):
         raise Exc()                        # infinities: IEEE algebra of the library's formulas, out of scope
     f = {"LOG": lambda x: math.log(x) if x > 0 else 0.0, "ABS": abs, "SQRT": math.sqrt,
@@ -498,13 +500,13 @@ def expected_(tab, op):
             return None
         kind = op[1]
         if kind == "min":
-            m = 1e300
+            m = math.inf                   # start value float('inf') (fix 68863c7)
             for v in a:
                 if v < m:
                     m = v
             e["ret"] = ("n", m)
         elif kind == "argmax":
-            m, im = -1e300, 0
+            m, im = -math.inf, 0
             for i, v in enumerate(a):
                 if v > m:
                     m, im = v, i
@@ -1084,8 +1086,8 @@ class P(Prop):
                 return ["agg", kind, self.rand_in(rng), self.rand_in(rng)]
             return ["agg", kind, self.rand_in(rng)]
         s = self.rand_expr(rng)
-        # track["…"] is routed to operate() only when the string contains one of + - / * ^ > < ( ) = '
-        return ["expr", s, rng.choice("mmg") if any(ch in s for ch in "+-/*^><()=") else "m"]
+        # track["…"] is routed to operate() only when the string contains one of + - / * ^ > < ( ) = ' {
+        return ["expr", s, rng.choice("mmg") if any(ch in s for ch in "+-/*^><()={") else "m"]
 
     def rand_pool(self, rng):
         """the names of one history: two or three ordinary ones and two or three special ones, so that they collide"""
@@ -1320,7 +1322,7 @@ class P(Prop):
         return {"KeyError": "err:key", "IndexError": "err:index", "ValueError": "err:value", "TypeError": "err:type",
                 "SystemExit": "err:exit", "ZeroDivisionError": "err:zerodiv", "OverflowError": "err:overflow"}.get(nm, "err:" + nm)
 
-    ROUTED = set("+-/*^><()='")
+    ROUTED = set("+-/*^><()='{")       # '{' since fix 396f8f9
 
     def observe(self, t):
         names = list(t.getListAnalyticalFeatures())
@@ -1659,7 +1661,7 @@ class P(Prop):
     @classmethod
     def bracket_routed(cls, name):
         """track[name] does not read the feature `name`: the string is stripped, and routed to the evaluator when it
-        contains one of + - / * ^ > < ( ) = '"""
+        contains one of + - / * ^ > < ( ) = ' {"""
         return name != name.strip() or bool(set(name) & cls.ROUTED)
 
     def compare_ops(self, ops, isteps, msteps, asteps, label="", last_malformed=False):
